@@ -9,9 +9,9 @@ CONSTANTS NameLens <- AllNameLens
           F2Links <- T2Links
           D = 3
           E = 3
-          HN <- H1N
-          HC <- H1C
-          HT <- H1T
+          HN <- H3N
+          HC <- H3C
+          HT <- Q1T
           HModes <- H1Modes
           HMtimes <- H1Mtimes
 INVARIANTS Emit GEstExact
